@@ -37,7 +37,9 @@ def run(tier, seed, replay):
     for (line, fl) in v.fails:
         for cl in fl["clauses"]:
             c = fl["case"]
-            rec = {"clause": cl, "kind": c["kind"], "text": c["text"], "case": c}
+            rec = {"clause": cl, "kind": c["kind"], "text": c["text"], "case": c,
+                   # (events after the enumerated cases: a well-formed text parsed again after 40 rejections of another text)
+                   "history_probe": line - 1 >= len(case_list)}
             if line - 1 < len(case_list):
                 rec["replay_case"] = case_list[line - 1]
                 ch = case_list[line - 1].get("ch")
@@ -63,7 +65,8 @@ def run(tier, seed, replay):
                 "rendering choices (optional whitespace none / newline+space..., required whitespace, bare / quoted / bracketed values) and "
                 "emits the TEXT built in TLA+; the real parse_vpl result is compared with the tree; 15 malformed texts must be rejected; 12 "
                 "ill-typed programs must be rejected by the factory, 4 well-typed ones accepted. non-trivial = nested sources, several nodes, "
-                "or a negative case")
-    run.extra = {"cases": s["cases"]}
+                "or a negative case. History independence: every rejected text is parsed 40 times in a row on one thread, after which 5 "
+                "well-formed probes (deepest nesting, simplest) are parsed again and judged like the first time")
+    run.extra = {"cases": s["cases"], "history_probes (well-formed text re-parsed after 40 rejections of another text)": s.get("history_probes")}
     run.assumptions = ["hook H1 exposes the parser's own syntax tree; repeated keys (rendering style `split`) and two structural build rules are exercised but judged as observations (undefined by the documented syntax); non-literal booleans are not generated"]
     return run.finish()
